@@ -221,11 +221,19 @@ macro_rules! probe {
         }
         #[cfg(feature = "dudect")]
         {
-            let mut rng = Replay(h("dudect", $seed, $set, 0, 0), 0);
-            #[allow(deprecated)]
-            let s = fips204::$m::dudect_keygen_sign_with_rng(&mut rng, b"dudect probe").expect("dudect");
-            let dd: [u8; 32] = Sha256::digest(s).into();
-            println!("set={} dudect={}", $set, hex(&dd));
+            // the test-mode entry point panics for some RNG values in builds with debug assertions (known finding F6,
+            // reported by C13): such a value is not a difference between configurations
+            let r = std::panic::catch_unwind(|| {
+                let mut rng = Replay(h("dudect", $seed, $set, 0, 0), 0);
+                #[allow(deprecated)]
+                let s = fips204::$m::dudect_keygen_sign_with_rng(&mut rng, b"dudect probe").expect("dudect");
+                let dd: [u8; 32] = Sha256::digest(s).into();
+                dd
+            });
+            match r {
+                Ok(dd) => println!("set={} dudect={}", $set, hex(&dd)),
+                Err(_) => println!("set={} dudect=panic", $set),
+            }
         }
         #[cfg(feature = "default-rng")]
         if !kat_only() {
